@@ -285,7 +285,11 @@ impl Add<Pattern> for Pattern {
     type Output = Pattern;
 
     fn add(self, rhs: Pattern) -> Self::Output {
-        Pattern::regex((self.to_string() + &rhs.to_string()).as_str()).unwrap()
+        let opts = PatternOpts {
+            case_insensitive: self.anchored_regex.is_case_insensitive()
+                || rhs.anchored_regex.is_case_insensitive(),
+        };
+        Pattern::regex_with((self.to_string() + &rhs.to_string()).as_str(), &opts).unwrap()
     }
 }
 
